@@ -32,6 +32,7 @@ def convOf : String → Option (Nat → Option Nat)
   | "dbl" => some fun m => some (2 * m)
   | "m3" => some fun m => if m % 3 == 0 then some (m + 1000) else none
   | "echo" => some some
+  | "dropper" => some some
   | "from" => some some     -- `OutputPortSubscriberTrait::subscribe_to_port`: `|m| Some(O::from(m))`
   | _ => none
 
@@ -51,6 +52,8 @@ structure SubInfo where
   rejected : Bool := false
   /-- the converter publishes re-entrantly (kind `echo`) -/
   echo : Bool := false
+  /-- the converter drops the port from inside a call (kind `dropper`) -/
+  dropper : Bool := false
   /-- v1: at some grant the task was more than the ring capacity behind -/
   lagged : Bool := false
 
@@ -77,14 +80,36 @@ def St.toModel (st : St) (k : Nat) : Option Nat := (st.keyMap.find? (·.1 == k))
 /-- op key of a model ordinal -/
 def St.toOp (st : St) (k : Nat) : Nat := ((st.keyMap.find? (·.2 == k)).map (·.1)).getD k
 
-/-- what converter call `(op key, msg)` publishes re-entrantly -/
+/-- what converter call `(op key, msg)` publishes re-entrantly (if the port is still there) -/
 def St.echoOf (st : St) (opk m : Nat) : Option Nat :=
   match st.subs.find? (·.key == opk) with
-  | some i => if i.echo && m < echoBase && m % 4 == 0 && !st.dropped then some (m + echoBase * (opk + 1)) else none
+  | some i => if i.echo && m < echoBase && m % 4 == 0 then some (m + echoBase * (opk + 1)) else none
   | none => none
 
-/-- the same, for a model call (model ordinal → op key) -/
-def St.re (st : St) (c : Call Nat) : Option Nat := st.echoOf (st.toOp c.key) c.msg
+/-- converter call `(op key, msg)` drops the port (kind `dropper`) -/
+def St.dropsAt (st : St) (opk m : Nat) : Bool :=
+  match st.subs.find? (·.key == opk) with
+  | some i => i.dropper && m < echoBase && m % 8 == 4
+  | none => false
+
+/-- the port operations a model call performs re-entrantly (model ordinal → op key) -/
+def St.re2 (st : St) (c : Call Nat) : List (Op2c Nat Nat) :=
+  ((st.echoOf (st.toOp c.key) c.msg).map fun m => Op2c.op (.publish m)).toList ++
+    (if st.dropsAt (st.toOp c.key) c.msg then [.drop] else [])
+
+def St.re1 (st : St) (c : Call Nat) : List (Op1c Nat Nat) :=
+  ((st.echoOf (st.toOp c.key) c.msg).map fun m => Op1c.op (.publish m)).toList ++
+    (if st.dropsAt (st.toOp c.key) c.msg then [.drop] else [])
+
+/-- Walk through the converter calls of a grant in order: the publications made from inside
+them (none once the port is gone) and whether the port is gone afterwards. -/
+def St.scanCalls (st : St) (cs : List (Nat × Nat)) : List Nat × Bool :=
+  cs.foldl (fun (acc : List Nat × Bool) km =>
+    let (ech, gone) := acc
+    let ech := match st.echoOf km.1 km.2 with
+      | some m => if gone then ech else ech ++ [m]
+      | none => ech
+    (ech, gone || st.dropsAt km.1 km.2)) ([], st.dropped)
 
 def showCalls (st : St) (cs : List (Call Nat)) : String :=
   if cs.isEmpty then "-" else ",".intercalate (cs.map fun c => s!"{st.toOp c.key}:{c.msg}")
@@ -199,16 +224,16 @@ def step (st : St) (op impl : String) : St × StepOut :=
     match key.toNat?, actor.toNat?, convOf kind with
     | some key, some actor, some c =>
       let info : SubInfo := { key := key, actor := actor, conv := c, pstart := st.pubs.length,
-                              grantedAt := st.pubs.length, echo := kind == "echo" }
+                              grantedAt := st.pubs.length, echo := kind == "echo", dropper := kind == "dropper" }
       let ord := if st.isV2 then st.s2.base.nsub else st.s1.base.fwds.length
       let st' := { st with subs := st.subs ++ [info], dirty := true, keyMap := st.keyMap ++ [(key, ord)] }
       if st.dropped then (st, { model := "closed" })
       else if (st.toModel key).isSome then (st, { model := "duplicate-key" })
       else if st.isV2 then
-        ({ st' with s2 := st.s2.step (.op (.subscribe actor c)) }, { model := "ok", nontrivial := kind == "echo" })
+        ({ st' with s2 := st.s2.step (.op (.subscribe actor c)) }, { model := "ok", nontrivial := kind == "echo" || kind == "dropper" })
       else
         let s1 := st.s1.step (.op (.subscribe actor c))
-        ({ st' with s1 := s1 }, { model := v1Counts s1.base, nontrivial := kind == "echo" })
+        ({ st' with s1 := s1 }, { model := v1Counts s1.base, nontrivial := kind == "echo" || kind == "dropper" })
     | _, _, _ => (st, { model := "bad-op" })
   | ["stop", actor] =>
     match actor.toNat? with
@@ -220,36 +245,33 @@ def step (st : St) (op impl : String) : St × StepOut :=
     ({ st with s2 := st.s2.step .drop, s1 := st.s1.step .drop, dropped := true },
      { model := "ok", nontrivial := !st.dropped && (st.dirty || !st.subs.isEmpty) })
   | ["grant", "port"] =>
-    let (s2, calls) := V2c.runTask st.re (fuelOf st) st.s2 []
+    let (s2, calls) := V2c.runTask st.re2 (fuelOf st) st.s2 []
     let obs := s!"calls={showCalls st calls} done={s2.finished}"
     let (subs, bad) := oracleCalls st impl
-    -- the publications made from inside converter calls, as the implementation reported them
-    let echoes := match parseCalls? impl with
-      | some cs => cs.filterMap fun km => st.echoOf km.1 km.2
-      | none => calls.filterMap st.re
+    -- the publications made from inside converter calls (and a drop from inside one), as the
+    -- implementation reported them
+    let (echoes, gone) := st.scanCalls ((parseCalls? impl).getD (calls.map fun c => (st.toOp c.key, c.msg)))
     -- after the drop nothing can park the port task: it must run to its end
-    let bad := if st.dropped && !(words impl).contains "done=true" then bad ++ ["not-terminated-after-drop"] else bad
-    ({ st with s2 := s2, dirty := false, subs := subs, pubs := st.pubs ++ echoes },
-     { model := obs, key := some s!"v2 {st.subs.length} {st.dropped} {echoes.length} {obs}", oracle := bad.eraseDups,
+    let bad := if gone && !(words impl).contains "done=true" then bad ++ ["not-terminated-after-drop"] else bad
+    ({ st with s2 := s2, dirty := false, subs := subs, pubs := st.pubs ++ echoes, dropped := gone },
+     { model := obs, key := some s!"v2 {st.subs.length} {st.dropped} {gone} {echoes.length} {obs}", oracle := bad.eraseDups,
        nontrivial := (decide (calls.length > 1) && s2.base.live.length + s2.base.gone.length > 1)
-         || !echoes.isEmpty || (st.dropped && !st.s2.finished) })
+         || !echoes.isEmpty || (gone && !st.s2.finished) })
   | ["grant", key] =>
     match key.toNat?.bind st.toModel with
     | some k =>
-      let (s1, calls) := V1c.runTask st.re (fuelOf st) st.s1 k []
+      let (s1, calls) := V1c.runTask st.re1 (fuelOf st) st.s1 k []
       match s1.base.fwds[k]? with
       | none => (st, { model := "no-such-task" })
       | some f =>
         let lagged := f.mask.any (·.isSome)
         let (subs, bad) := oracleCalls st impl
         -- a forwarding task may end only because its subscriber has stopped
-        let echoes := match parseCalls? impl with
-          | some cs => cs.filterMap fun km => st.echoOf km.1 km.2
-          | none => calls.filterMap st.re
+        let (echoes, gone) := st.scanCalls ((parseCalls? impl).getD (calls.map fun c => (st.toOp c.key, c.msg)))
         let pubs := st.pubs ++ echoes
         let wasDone := st.s1.taskDone k
-        let bad := if st.dropped && !(words impl).contains "done=true" then bad ++ ["not-terminated-after-drop"] else bad
-        let endedAlive := !st.dropped && (words impl).contains "done=true" &&
+        let bad := if gone && !(words impl).contains "done=true" then bad ++ ["not-terminated-after-drop"] else bad
+        let endedAlive := !gone && (words impl).contains "done=true" &&
           (match st.subs.find? (fun i => st.toModel i.key == some k) with
            | some i => !st.stopped.contains i.actor
            | none => false)
@@ -260,11 +282,11 @@ def step (st : St) (op impl : String) : St × StepOut :=
                      lagged := i.lagged || (!wasDone && st.pubs.length - i.grantedAt > ringCap) }
           else i
         let obs := s!"calls={showCalls st calls} done={s1.taskDone k}" ++
-          (if st.dropped then "" else s!" {v1Counts s1.base}")
-        ({ st with s1 := s1, subs := subs, pubs := pubs },
-         { model := obs, key := some s!"v1 {k} {st.dropped} {echoes.length} {obs}", oracle := bad.eraseDups,
+          (if s1.closed then "" else s!" {v1Counts s1.base}")
+        ({ st with s1 := s1, subs := subs, pubs := pubs, dropped := gone },
+         { model := obs, key := some s!"v1 {k} {st.dropped} {gone} {echoes.length} {obs}", oracle := bad.eraseDups,
            nontrivial := (!calls.isEmpty && (lagged || f.ended || st.s1.base.fwds.length > 1))
-             || !echoes.isEmpty || (st.dropped && !wasDone) })
+             || !echoes.isEmpty || (gone && !wasDone) })
     | none => (st, { model := "no-such-task" })
   | ["seq", key] =>
     match key.toNat?, key.toNat?.bind st.toModel with
